@@ -197,6 +197,23 @@ template <class G> struct Exec {
   }
   template <class A> static void sub_log(const A&, Out& out, std::false_type, std::false_type) { out.status = 9; }
 
+  // (sub-views are bound to const named objects: calling data() on an rvalue Map<const ...> selects the
+  //  non-const overload, which does not compile on the pinned tree)
+  template <class A> static bool sub_offsets_ok(const A& a, std::true_type, std::false_type) {
+    const Eigen::Map<const manif::SO3<S> > v(a.asSO3());
+    return (const void*)v.data() == (const void*)(a.data() + 3);
+  }
+  template <class A> static bool sub_offsets_ok(const A& a, std::false_type, std::true_type) {
+    enum { L = G::BundleSize - 1 };
+    const typename G::template MapConstElement<0> v0(a.template element<0>());
+    const typename G::template MapConstElement<1> v1(a.template element<1>());
+    const typename G::template MapConstElement<L> vl(a.template element<L>());
+    return (v0.data() - a.data()) == std::get<0>(manif::internal::traits<G>::RepSizeIdx) &&
+           (v1.data() - a.data()) == std::get<1>(manif::internal::traits<G>::RepSizeIdx) &&
+           (vl.data() - a.data()) == std::get<L>(manif::internal::traits<G>::RepSizeIdx);
+  }
+  template <class A> static bool sub_offsets_ok(const A&, std::false_type, std::false_type) { return true; }
+
   // write through a sub view: rotation part (asSO3) or a bundle element := the one of b.
   // (sources are bound to named views first: assigning from an rvalue Map<const ...> selects the
   //  move overload of the MAP_ASSIGN_OP family, which does not compile on the pinned tree)
@@ -285,6 +302,13 @@ template <class G> struct Exec {
       case OP_TRANSFORM: transform_of(a, out, std::integral_constant<bool, !IsBundle::value>()); break;
       case OP_ROTATION: rotation_of(a, out, HasRotation()); break;
       case OP_COEFFS: put_e(out, a); break;
+      case OP_DATAPTR: {
+        // v[0]: the view reads the user's buffer in place; v[1]: internal sub-views sit at the documented offsets
+        const void* expect = (op.ka == K_OWN) ? (const void*)st.e[op.a].data() : (const void*)st.ebuf[op.a];
+        out.nv = 2;
+        out.v[0] = ((const void*)a.data() == expect && (const void*)a.coeffs().data() == expect) ? 1.0 : 0.0;
+        out.v[1] = sub_offsets_ok(a, HasAsSO3(), IsBundle()) ? 1.0 : 0.0;
+      } break;
       case OP_CASTRT: {
         typename G::template LieGroupTemplate<OS> o = a.template cast<OS>();
         put(out.j1, out.n1, o.coeffs());
